@@ -72,7 +72,7 @@ struct OpRec
     std::vector<Red> reds;
     struct TermF { int term; int64_t off; int64_t len; uint32_t seq; };
     std::vector<TermF> termfs;
-    struct Lex { int64_t pos; int line; int col; int idx; int64_t len; uint32_t seq; int verbose; };
+    struct Lex { int64_t pos; int line; int col; int idx; int64_t len; uint32_t seq; int verbose; int64_t end_pos; };
     std::vector<Lex> lexes;
     int64_t ctx_foreign = 0, ctx_touches = 0;
     // value ledger
@@ -119,7 +119,7 @@ int64_t wr(const char* p, int64_t n);    // returns number of bytes accepted
 void termf(int term, const char* p, int64_t len);
 void red(int rule, uint64_t digest, uint64_t sdigest, int ctx);
 void ctx_touch(const void* addr);
-LexAnswer lex(int64_t pos, int line, int col, bool verbose);
+LexAnswer lex(int64_t pos, int line, int col, bool verbose, int64_t end_pos);
 int64_t ptr_pos(const char* p);          // position of a raw pointer relative to the op's buffer
 void step(bool stacks_ok);
 void lstep(bool state_ok);
